@@ -239,8 +239,11 @@ def conclude(ctx, proof, res, trusted_base, assumptions):
     cov.update(res.get("extra", {}))
     ev = dict(property_id=pid, tier=ctx.tier, seed=ctx.seed, level="proof", coverage=cov,
               assumptions=assumptions, wall_s=round(wall, 2), violations=nviol)
-    os.makedirs(EVID, exist_ok=True)
-    with open(os.path.join(EVID, f"{pid}.json"), "w") as f:
+    # evidence under /verif/evidence is only ever written by runs against /repo itself; runs against a scratch copy
+    # (COLA_REPO=..., used for seeded changes and mutants) write theirs under run/
+    evdir = EVID if os.path.realpath(REPO) == "/repo" else os.path.join(RUN, "evidence_scratch")
+    os.makedirs(evdir, exist_ok=True)
+    with open(os.path.join(evdir, f"{pid}.json"), "w") as f:
         json.dump(ev, f, indent=1, default=str)
     for l in lines:
         print(l)
